@@ -164,8 +164,9 @@ FitAtDist(src, Lrow, K, ULo, UHi) ==
 SingularDist(src, K) == SumSeq([j \in Bands(src) |-> Wt(src, j) * K[j] * K[j]]) = 0
 
 \* total order on chi values [big, chi]
-ChiLt(a, b) == a.big < b.big \/ (a.big = b.big /\ RLt(a.chi, b.chi))
-ChiLe(a, b) == a.big < b.big \/ (a.big = b.big /\ RLe(a.chi, b.chi))
+\* (float absorption: n * 1e30 + finite = n * 1e30, so among values with the same n > 0 all are equal)
+ChiLt(a, b) == a.big < b.big \/ (a.big = b.big /\ a.big = 0 /\ RLt(a.chi, b.chi))
+ChiLe(a, b) == a.big < b.big \/ (a.big = b.big /\ (a.big > 0 \/ RLe(a.chi, b.chi)))
 
 \* set of admissible best-distance indices (ties: any)
 BestDist(fits) == {i \in 1..Len(fits) : \A i2 \in 1..Len(fits) : ChiLe(fits[i], fits[i2])}
